@@ -4,7 +4,7 @@ from __future__ import annotations
 import ast
 
 from .. import unitrules
-from ..core import AnalysisError, names_in, norm, walk_no_nested
+from ..core import AnalysisError, kwarg, names_in, norm, walk_no_nested
 from .c08 import _resolve_local
 
 EXPLANATION = (
@@ -26,6 +26,8 @@ ASSUMPTIONS = ["contracts of WCSHelper.sky2pix_ellipse and "
                "fitting.elliptical_gaussian (units.py)"]
 
 MUTANTS = [
+    ("--frac default 0 handed on as a fraction", "AegeanTools/CLI/AeRes.py",
+     "    if options.frac <= 0:", "    if options.frac < 0:", "C14-R14"),
     ("model centre shifted by two pixels on the first axis",
      "AegeanTools/AeRes.py", "src.peak_flux, xo-1, yo-1,",
      "src.peak_flux, xo+1, yo-1,", "C14-R13"),
@@ -144,6 +146,51 @@ def r13_centre(ctx, prog, rule="C14-R13"):
                   "catalogue position" % (nm, norm(a)), node=calls[0])
 
 
+def r14_cli_threshold(ctx, prog, rule="C14-R14"):
+    """the command line selects the threshold like the library: no --frac
+    (default 0) means `use --sigma`"""
+    from .. import concrete
+    ctx.rule(rule, "AeRes command line: the --frac default (0) and any "
+             "non-positive value reach make_residual as frac=None (so "
+             "--sigma applies), a positive value as itself; the statements "
+             "of main() that settle options.frac are interpreted")
+    q = "AegeanTools.CLI.AeRes.main"
+    if q not in prog.functions:
+        raise AnalysisError("%s: CLI.AeRes.main" % rule)
+    fi = prog.functions[q]
+    stmts = [st for st in walk_no_nested(fi.node)
+             if isinstance(st, (ast.If, ast.Assign)) and any(
+                 isinstance(x, ast.Attribute) and norm(x) == "options.frac"
+                 and isinstance(x.ctx, ast.Store) for x in ast.walk(st))
+             and not any(isinstance(p_, ast.If) and st in ast.walk(p_)
+                         and p_ is not st for p_ in walk_no_nested(fi.node))]
+    calls = [c for c in walk_no_nested(fi.node) if isinstance(c, ast.Call)
+             and norm(c.func).split(".")[-1] == "make_residual"]
+    if not stmts or not calls:
+        raise AnalysisError("%s: frac handling of the command line" % rule)
+    fr = kwarg(calls[0], "frac")
+    ctx.check(rule, fi, "make_residual receives options.frac",
+              fr is not None and norm(fr) == "options.frac",
+              "the command line passes %s as frac" %
+              (norm(fr) if fr is not None else None), node=calls[0])
+    bad = []
+    for v in (0, 0.0, -1.0, 0.25, 1.0):
+        env = {"options.frac": v}
+        try:
+            concrete.run(stmts, env)
+        except concrete.Unknown as e:
+            raise AnalysisError("%s: %s" % (rule, e))
+        want = v if v > 0 else None
+        if env["options.frac"] != want or \
+                (want is None) != (env["options.frac"] is None):
+            bad.append((v, env["options.frac"]))
+    ctx.check(rule, fi, "--frac sentinel over 5 values", not bad,
+              "--frac %s reaches make_residual as frac=%s: the default 0 "
+              "must become None, otherwise --mask without --frac uses the "
+              "threshold 0*peak_flux and blanks the whole evaluation box" %
+              (bad[0] if bad else ("", "")), node=stmts[0])
+
+
 def r12_diagnostics(ctx, prog, rule="C14-R12"):
     """the model does not depend on the logging level"""
     ctx.rule(rule, "the model is the same at every verbosity: a block that "
@@ -200,6 +247,7 @@ def run(ctx):
     mod = prog.modules[mm.module]
     r12_diagnostics(ctx, prog)
     r13_centre(ctx, prog)
+    r14_cli_threshold(ctx, prog)
     # ---------------------------------------------------------------- R1
     ctx.rule("C14-R1", "units, width kinds and index origin at the "
              "sky2pix_ellipse and elliptical_gaussian calls of make_model")
@@ -212,8 +260,21 @@ def run(ctx):
              "[0, shape[axis]] of the matching axis before int()")
     import sympy as sp
     from .. import sym
-    fac = [s for s in walk_no_nested(mm.node) if isinstance(s, ast.Assign)
-           and norm(s.targets[0]) == "factor"]
+    # the half-width factor, by role: the one numeric constant bound at
+    # function level that the per-source loop multiplies the widths with
+    loopsF = [l for l in mm.node.body if isinstance(l, ast.For)]
+    used_in_loop = {x.id for l in loopsF for x in ast.walk(l)
+                    if isinstance(x, ast.Name) and
+                    isinstance(x.ctx, ast.Load)}
+    fac = [s for s in mm.node.body if isinstance(s, ast.Assign)
+           and len(s.targets) == 1 and isinstance(s.targets[0], ast.Name)
+           and isinstance(prog.const_value(mod, s.value), (int, float))
+           and not isinstance(prog.const_value(mod, s.value), bool)
+           and s.targets[0].id in used_in_loop
+           and any(isinstance(b, ast.BinOp) and isinstance(b.op, ast.Mult)
+                   and s.targets[0].id in names_in(b)
+                   for l in loopsF for b in ast.walk(l))]
+    FNAME = fac[0].targets[0].id if len(fac) == 1 else "factor"
     fv = prog.const_value(mod, fac[0].value) if len(fac) == 1 else None
     ctx.check("C14-R2", mm, "window factor = %r" % fv,
               isinstance(fv, (int, float)) and fv >= 5,
@@ -248,13 +309,13 @@ def run(ctx):
             if fn == "int" and n.args:
                 return self.expr(n.args[0])
             return super().call(n)
-    tr = T(prog, mod, {"factor": F, "sx": SX, "sy": SY, "xo": XO, "yo": YO})
+    tr = T(prog, mod, {FNAME: F, "sx": SX, "sy": SY, "xo": XO, "yo": YO})
     # value-number the loop body up to the grid (phi = radians(theta) etc.)
     loop0 = [l for l in mm.node.body if isinstance(l, ast.For)]
     pre = sorted((x for x in ast.walk(loop0[0]) if isinstance(
         x, (ast.Assign, ast.AugAssign)) and x.lineno < grids[0].lineno),
         key=lambda x: x.lineno)
-    keep = {"factor": F, "sx": SX, "sy": SY, "xo": XO, "yo": YO}
+    keep = {FNAME: F, "sx": SX, "sy": SY, "xo": XO, "yo": YO}
     tr.env["phi"] = PH
     for st in pre:
         tnames = [norm(t) for t in (st.targets if isinstance(st, ast.Assign)
